@@ -42,6 +42,20 @@ Added probes (helpers in harness/s7_c18.py):
    at that moment: array name/size/alignment/element type/parse/dumps/default and size == n * len(T); for embedding structures the
    full comparison above (layout, reader, parses, dumps, instance behaviour).  Derived types made BEFORE an extension and still
    held are only used and counted: the unmodified library leaves them with the size / offsets of the intermediate state.
+ * observations between the steps, and every call form on the final type (harness/v9_c18.py; structures AND unions, created through
+   the API or cs.load with their first 0..2 fields, members added in ascending / random / descending size order):
+   - family "observed": after the creation and after every add_field / start_update / extend+commit step the intermediate type is
+     USED - instantiated, parsed, dumped (dumps / bytes / write), ==, hash, repr, bool, len, keyword / positional construction,
+     called with bytes of every length, read / reads / file objects, as member and as array element of another type that is
+     dumped, attribute assignment - before later steps add members (also members larger than every earlier one);
+   - family "callforms": histories through a committed single-field state (char, char[N], uint8, ...; created with it, or created
+     empty and the field added by its own add_field / batch / extend) and through the empty state, then extended.
+   At check points between the steps and at the end the type is compared with the one-shot declaration of the fields present: all
+   of the above comparisons plus T(b) for a real bytes object of EVERY length 0..size+1, T(bytearray / memoryview / BytesIO / real
+   file), T.read, T.reads, cs.read, T._read, T(), positional / keyword / mixed construction, T(None), T(5) (value, dumps, _sizes,
+   _values, union buffer, stream position or error class), and every writer form (v.dumps, bytes(v), T.dumps, v.write, T.write at a
+   stream position, len, as member of an API-made / loaded outer structure and of T[2] that is dumped, ==/!=/hash) for parsed,
+   default, keyword-built and attribute-modified instances.
 """
 from __future__ import annotations
 
@@ -55,6 +69,7 @@ from .. import s7_c18 as s7
 from .. import t5_c18 as t5
 from .. import v4_c18upd as v4u
 from .. import v6_c18 as v6
+from .. import v9_c18 as v9
 from ..common import A, Case, Result, mkrng, parse_sexp, run_driver, sx
 from ..structprops import rand_bytes
 
@@ -359,7 +374,16 @@ def run(env) -> Result:
                 "requested before the first field, between the steps and inside open batches, T is extended, and everything is requested "
                 "again: each request made outside a batch equals the same request on a fresh instance with T declared in one piece "
                 "(array: name, size == n*len(T), alignment, element type, parse at 0/1, dumps, default; embedding structure: the full "
-                "comparison above); types held from before an extension are not judged. distinct = (field list, config, split, mode); "
+                "comparison above); types held from before an extension are not judged. Plus histories for structures AND unions "
+                "(created by the API or cs.load with 0..2 fields; members in ascending/random/descending size order; through a committed "
+                "single-field state char/char[N]/uint8/... and the empty state) in which the intermediate type is used between the steps "
+                "(instantiated, parsed, dumps/bytes/write, ==, hash, repr, bool, len, construction, bytes of every length, read/reads/file, "
+                "as member / array element of a dumped type, attribute assignment); at check points between the steps and at the end the "
+                "type equals the one-shot declaration of the present fields in all of the above and in every call form (T(bytes) of every "
+                "length 0..size+1, T(bytearray/memoryview/BytesIO/file), T.read, T.reads, cs.read, T._read, T(), positional/keyword/mixed "
+                "construction) and every writer form (v.dumps, bytes(v), T.dumps, v.write, T.write, len, member of API-made/loaded outer "
+                "structure and of T[2], ==/!=/hash; parsed, default, keyword-built, attribute-modified instances). "
+                "distinct = (field list, config, split, mode); "
                 "non-trivial = >= 2 batches (derived-type histories: some request repeated after an extension)")
     dc = impl.dc()
     from dissect.cstruct import compiler
@@ -468,6 +492,9 @@ def run(env) -> Result:
     # derived types (arrays of T, structures embedding T) taken while T is still growing, and again afterwards (own PRNG stream)
     v6.run(env, res, viol, mkrng(env["seed"], "c18-derived"), sys.modules[__name__])
 
+    # the type is used between the steps (structures and unions), and the final type is entered through every call form (own PRNG streams)
+    v9.run(env, res, viol, sys.modules[__name__])
+
     # definitions through the parser: a named top-level struct is pre-registered empty (compiled if requested), then extended and
     # committed; the same field list declared in one piece must give the same class
     def parser_probe(text, names, endian, align, compiled, ptr, kind):
@@ -555,6 +582,8 @@ def replay(body) -> int:
     dc = impl.dc()
     if "derive_steps" in case:
         v6.replay_case(sys.modules[__name__], case, viol)
+    elif "obs_steps" in case:
+        v9.replay_case(sys.modules[__name__], case, viol)
     elif "history" in case and "data_seed" in case:
         v4u.replay_case(sys.modules[__name__], case, viol)
     elif "history" in case:
